@@ -5,6 +5,7 @@
 package fixture
 
 import (
+	"bufio"
 	"bytes"
 	"crypto/ecdsa"
 	"crypto/elliptic"
@@ -515,4 +516,26 @@ func presentButZero(w withOptionalAddr) []byte {
 		return w.Addr.octets()
 	}
 	return nil
+}
+
+// LINT-READ scanner-error-looked-at: a line longer than the scanner's buffer ends the loop silently.
+func scansWithoutAskingForTheError(r io.Reader) []string {
+	var lines []string
+	sc := bufio.NewScanner(r)
+	for sc.Scan() {
+		lines = append(lines, sc.Text())
+	}
+	return lines
+}
+
+// LINT-RUNEIDX: i counts bytes, chars counts characters.
+func byteOffsetIntoRunes(s string) int {
+	chars := []rune(s)
+	n := 0
+	for i, sym := range s {
+		if i > 0 && sym == ',' && chars[i-1] != '\\' {
+			n++
+		}
+	}
+	return n
 }
